@@ -17,6 +17,9 @@ class ModuleVal:
         return "<module %s>" % self.name
 
 
+ABSENT = object()            # the one marker for "no value" (journal entries, defaults): shared by every module
+
+
 class ClassVal:
     def __init__(self, name, module=None, bases=(), node=None, builtin=False, metaclass=None):
         self.name = name
